@@ -1861,19 +1861,6 @@ class NumpyProxy:
             return self._filled(shape, dtype, UNWRITTEN)
         return self._filled(shape, dtype, self._zero(dtype))
 
-    def repeat(self, a, repeats, axis=None):
-        # arrays built by repeating / tiling values are buffers the code may later write into: engine arrays when enabled
-        r = numpy.repeat(a, repeats, axis=axis)
-        if self.enabled and isinstance(r, _nd) and not isinstance(r, SymArray) and r.dtype != object:
-            return box(r)
-        return r
-
-    def tile(self, a, reps):
-        r = numpy.tile(a, reps)
-        if self.enabled and isinstance(r, _nd) and not isinstance(r, SymArray) and r.dtype != object:
-            return box(r)
-        return r
-
     def zeros(self, shape, dtype=float, order="C", **kw):
         if not self.enabled:
             return numpy.zeros(shape, dtype=dtype)
